@@ -266,7 +266,7 @@ OB.REGISTRY["lambda_markers"] = Obligation(
 
 
 # ============================================================================================ string_annotations (engine X)
-POSITIONS = ["bare", "subscript", "tuple-in-subscript", "nested-subscript", "binop", "list-in-subscript", "sibling-after-literal", "under-nested-literal", "attribute-literal", "call-argument"]
+POSITIONS = ["bare", "subscript", "tuple-in-subscript", "nested-subscript", "binop", "list-in-subscript", "sibling-after-literal", "under-nested-literal", "attribute-literal", "call-argument", "lambda-default", "lambda-body", "dict-value-in-subscript"]
 
 
 def _name(i):
@@ -304,6 +304,15 @@ def _position_tree(pos):
         return _sub(ast.Attribute(value=_name("T"), attr="Literal", ctx=ast.Load()), s), True
     if pos == "call-argument":
         return ast.Call(func=_name("G"), args=[s], keywords=[]), False
+    if pos == "lambda-default":
+        # a default VALUE is never an annotation, whatever surrounds the lambda
+        lam = ast.Lambda(args=ast.arguments(posonlyargs=[], args=[ast.arg(arg="x")], vararg=None, kwonlyargs=[], kw_defaults=[], kwarg=None, defaults=[s]), body=_name("x"))
+        return _sub(_name("G"), ast.Tuple(elts=[_name("int"), lam], ctx=ast.Load())), "never"
+    if pos == "lambda-body":
+        lam = ast.Lambda(args=ast.arguments(posonlyargs=[], args=[], vararg=None, kwonlyargs=[], kw_defaults=[], kwarg=None, defaults=[]), body=s)
+        return _sub(_name("L"), lam), True
+    if pos == "dict-value-in-subscript":
+        return _sub(_name("L"), ast.Dict(keys=[_name("k")], values=[s])), True
     raise KeyError(pos)
 
 
@@ -346,8 +355,8 @@ def string_annotations(pos: str, ann_mod: str, ann_as: bool, lit_mod: str, lit_a
     if parsed == kept:
         return fail(f"string constant neither parsed nor kept exactly once: {flat!r}")
     future = ann_mod == "__future__"  # CPython enables postponed evaluation whatever the `as` name is
-    is_literal = under_l and (lit_mod == "typing" or lit_mod == "typing_extensions")
-    want = (ps == 1 or (ps == 0 and not future)) and not is_literal
+    is_literal = under_l is True and (lit_mod == "typing" or lit_mod == "typing_extensions")
+    want = (ps == 1 or (ps == 0 and not future)) and not is_literal and under_l != "never"
     if parsed != want:
         return fail(f"pos={pos} from {ann_mod} import annotations{' as a' if ann_as else ''}; Literal from {lit_mod!r}; parse_strings={[None, True, False][ps]}: string parsed as code={parsed}, expected {want}")
     if parsed:
@@ -380,7 +389,7 @@ def _sa_replay(pos, ann_mod, ann_as, lit_mod, lit_as, ps):
     flat = list(m["x"].annotation.iterate(flat=True)) if not isinstance(m["x"].annotation, str) else [m["x"].annotation]
     parsed = any(isinstance(x, ExprName) and x.name == "ab" for x in flat)
     future = ann_mod == "__future__"  # CPython enables postponed evaluation whatever the `as` name is
-    want = (not future) and not (under_l and lit_mod in ("typing", "typing_extensions"))
+    want = (not future) and not (under_l is True and lit_mod in ("typing", "typing_extensions")) and under_l != "never"
     return parsed != want, f"{src!r}: annotation pieces {[str(x) for x in flat]} (string parsed as code={parsed}, expected {want})"
 
 
